@@ -315,6 +315,29 @@ PROPS["C04"] = dict(
                  "the liveness theorem is for runs that become quiet (no mutator acts any more), as the property says 'even if no further operation ever happens'"],
 )
 
+PROPS["C12"] = dict(
+    lean_targets=["BB.Core.Fair", "BB.Props.C12", "BB.Props.C13", "BB.Props.C14", "BB.Props.C17", "BB.Props.C20", "BB.Props.C16"],
+    theorems=["BB.Props.C12.put_new_fail_after_close", "BB.Props.C12.get_fails_after_close", "BB.Props.C12.commit_fails_when_nothing_pending",
+              "BB.Props.C12.close_keeps_contents_and_closes_consumers", "BB.Props.C12.inv_step_table", "BB.Props.C12.close_leadsTo_no_goroutine",
+              "BB.Props.C12.timer_goroutine_outlives_close_without_ctx_select", "BB.Props.C12.waitcond_watcher_exits",
+              "BB.Props.C13.after_close_errors", "BB.Props.C13.nothing_taken_after_close", "BB.Props.C14.wait_sound", "BB.Props.C14.queued_not_stuck",
+              "BB.Props.C17.unheld_not_stuck", "BB.Props.C20.closed_iff_goroutine_gone", "BB.Props.C20.cancelled_goroutine_not_stuck",
+              "BB.Props.C16.conflated_iff", "BB.Props.C16.combine_iff"],
+    corr=[dict(family="lifecycle", quick=40, thorough=1500, mismatch_is_violation=True, no_shrink=True,
+               nontrivial=has("long_cooldown", "shutdown_order"),
+               rule="lifecycle: a program creates a Buffer (cooldown 5 s / 50 ms / 0) with consumers, a Channel, Workers, a Worker, Exclusive calls, Notifier.SubscribeCancel, "
+                    "CombineContext, ConflatedContext, LinearAttempt and a WaitCond call, leaves some operations in flight (blocked Gets), then closes / cancels everything "
+                    "concurrently in a PRNG-chosen order, probes the API after Close (Put/NewConsumer/second Close/Channel Get+Commit+Close errors, Done closed) and takes a "
+                    "goroutine dump: within 500 ms no goroutine with a library frame may remain; expectations from the Lean models; non-trivial = long cooldown / random order"),
+          dict(family="buffer", quick=150, thorough=5000, probes=buffer_probes, observable={"closec", "closebuf", "put", "new", "get", "commit"},
+               nontrivial=has("close_waiting", "bufclose_waiting", "bufclose", "close_twice"),
+               rule="buffer family (see C01): sequential scripts with consumer / buffer Close incl. Close that waits for uncommitted reads, double Close, operations after Close"),
+          dict(family="channel", quick=150, thorough=5000, mismatch_is_violation=True, nontrivial=has("close", "ctx_cancel"),
+               rule="channel family (see C13): Close / parent-context cancel, operations afterwards")],
+    assumptions=["scheduler weak fairness for the goroutine-exit theorems; timers as environment events; the goroutine dump is an observation (500 ms grace), not a proof",
+                 "the proviso of the property (no uncommitted reads, no Get left blocked on a consumer being closed) is built into the model: consumer.Close waits for the consumer mutex"],
+)
+
 with_conform(PROPS["C01"], "Buffer")
 with_conform(PROPS["C02"], "Buffer")
 with_conform(PROPS["C03"], "Buffer")
@@ -335,3 +358,4 @@ PROPS["C02"]["corr"].append(_bufconc(["rollback_d2", "rollback", "commit"]))
 PROPS["C03"]["corr"].append(_bufconc(["evict_unread", "past_error", "shift", "consumer_closed"]))
 PROPS["C05"]["corr"].append(_bufconc(["get_pending"]))
 with_conform(PROPS["C04"], "Cleanup", "Buffer", "WaitCond")
+with_conform(PROPS["C12"], "Lifecycle", "Cleanup", "WaitCond", "Channel", "Ctx")
